@@ -128,7 +128,7 @@ pub fn gen_stream(rng: &mut Rng, p: &SProfile, limit: u32) -> Vec<SFrame> {
             }
             3 => {
                 // oversized body for any opcode
-                let opc = *rng.pick(&[op::SET, op::SET, op::ADD, op::GET, op::APPEND, op::INCR, op::NOOP, op::SETQ, op::DELETE, 0x1c, op::FLUSH, op::GETKQ, 0x1b, 0x1f, op::PREPENDQ, op::APPENDQ]);
+                let opc = *rng.pick(&[op::SET, op::SET, op::ADD, op::GET, op::APPEND, op::INCR, op::NOOP, op::SETQ, op::DELETE, 0x1c, op::FLUSH, op::GETKQ, 0x1b, 0x1f, op::PREPENDQ, op::APPENDQ, op::QUIT, op::QUITQ, op::VERSION, op::STAT, op::FLUSHQ]);
                 let extra = *rng.pick(&[1u32, 1, 2, 7, 100, limit, 3 * limit]);
                 let body = (limit + extra).min(6000);
                 let mut f = Frame::new(opc);
@@ -228,12 +228,15 @@ pub fn directed_streams_with_limit() -> Vec<(Option<u32>, Vec<SFrame>)> {
     }
     // oversized quiet requests (5000 bytes: above every limit these suites use): answered 'too large' like the loud ones,
     // skipped, and the connection goes on
-    for (i, opc) in [op::APPENDQ, op::PREPENDQ, op::SETQ, op::ADDQ, op::GETKQ, op::DELETEQ, op::SET, op::ADD, op::APPEND, op::REPLACE].iter().enumerate() {
-        let b = 0x500 + 0x10 * i as u32;
+    // — for EVERY opcode 0x00..=0x24 (the refusal happens before the opcode is looked at: an oversized quit / quitq / noop /
+    // version / stat / flush / touch / SASL request is refused and skipped like an oversized set; C13_too_large_answer)
+    let all_opcodes: Vec<u8> = (0x00u8..=0x24).collect();
+    for (i, opc) in all_opcodes.iter().enumerate() {
+        let b = 0x5000 + 0x10 * i as u32;
         let mut f = Frame::new(*opc);
         f.opaque = b + 2;
         f.key = b"dk".to_vec();
-        if matches!(*opc, op::SETQ | op::ADDQ | op::SET | op::ADD | op::REPLACE) {
+        if matches!(*opc, op::SETQ | op::ADDQ | op::REPLACEQ | op::SET | op::ADD | op::REPLACE) {
             f.extras = vec![0; 8];
         }
         f.value = vec![b'o'; 5000];
